@@ -95,6 +95,28 @@ def group_name_stored_as_given(prog):
     return True
 
 
+def _index_from_search(f, i):
+    """the position is a local that holds the result of a call (a search: xxxIdx(name), std::distance(begin, find_if(...)), a helper) -
+    not a loop counter, not a parameter, not a constant"""
+    from paths import local_init
+    m = f.nodes[f.strip(i, 'all')]
+    if m['k'] in ('CallExpr', 'CXXMemberCallExpr'):
+        return True
+    if m['k'] != 'DeclRefExpr' or m['decl'].get('dk') != 'local':
+        return False
+    srcs = []
+    ini = local_init(f, m['decl']['id'])
+    if ini is not None:
+        srcs.append(ini)
+    for n in f.all_nodes({'BinaryOperator'}):
+        if n['op'] == '=' and f.nodes[f.strip(n['ch'][0], 'all')].get('decl', {}).get('id') == m['decl']['id']:
+            srcs.append(n['ch'][1])
+    for n in f.all_nodes({'UnaryOperator', 'CompoundAssignOperator'}):
+        if n['ch'] and f.nodes[f.strip(n['ch'][0], 'all')].get('decl', {}).get('id') == m['decl']['id']:
+            return False      # a counter
+    return bool(srcs) and all(f.nodes[f.strip(x, 'all')]['k'] in ('CallExpr', 'CXXMemberCallExpr') for x in srcs)
+
+
 def run(prog, tier):
     res = Result('C10', tier,
                  'Nothing-after path rule on the event-level CFG of every public mutator of c3d, the typed Parameter::set overloads, '
@@ -184,7 +206,7 @@ def run(prog, tier):
                 res.ok('validate-then-mutate', inst + ': ' + key, f.loc(n['id']), 'listed infeasible: ' + ent[0]['reason'], function=f.sig, expr=key, nontrivial=False)
                 continue
             if left == {'std::out_of_range'} and re.sub(r'_nonConst$', '', n['callee']['name']) in ('frame', 'point', 'subframe', 'channel', 'group', 'parameter') and \
-                    len(f.call_args(n)) == 1 and f.nodes[f.strip(f.call_args(n)[0], 'noop')].get('tc') in ('u', 's'):
+                    len(f.call_args(n)) == 1 and f.nodes[f.strip(f.call_args(n)[0], 'noop')].get('tc') in ('u', 's') and _index_from_search(f, f.call_args(n)[0]):
                 # a bounds-checked positional access whose position the discharge lemmas could not validate: no position that is out of
                 # range has been demonstrated either (A16) - the index may come from a search written in a way the lemma does not read
                 res.undecided('validate-then-mutate', inst + ': ' + key, f.loc(n['id']), 'the positional access %s(%s) comes after the object was modified and its position is not validated by a form the rule reads; '
